@@ -21,6 +21,12 @@ impl From<CommandError> for HErr { #[verifier::external_body] fn from(e: Command
 pub broadcast axiom fn ax_display_commanderror(e: CommandError, f: &std::fmt::Formatter<'_>)
     ensures #[trigger] <CommandError as DisplaySpec>::fmt_req(&e, f);
 
+// the assumed contracts below are tied to the text of the functions they speak about (see tools/extract.py check_assumed)
+//@assumed command.rs Message::from_shared_str sha=fcede3cbabfd units=dispatch
+//@assumed command.rs Command::from_message sha=2cb92377f575 units=dispatch
+//@assumed command.rs Command::parse_from_message sha=5d809b6b9765 units=dispatch
+//@assumed command.rs Command::validate sha=360ec9b03856 units=dispatch
+//@assumed utils.rs validate_channelmodes sha=0c59764eb236 units=dispatch
 // what the (unverified) tokenizer and per-verb parser return: uninterpreted, so that the dispatcher's reaction can be specified
 pub uninterp spec fn tokenize<'a>(input: Seq<char>) -> Result<Message<'a>, MessageError>;
 pub uninterp spec fn parse_cmd<'a>(m: Message<'a>) -> Result<Command<'a>, CommandError>;
